@@ -26,12 +26,12 @@ func init() {
 		NotDecided:  "that an equal chain implies equal data; round-robin fairness.",
 	}
 	registry["C05"] = &propSpec{
-		Rules:       []ruleFn{ruleDetach("C05-DETACH"), ruleC05Monitor("C05-MONITOR"), ruleC04Lists("C05-STOPIO"), ruleC05Ping("C05-PING"), ruleC15Client, ruleC02Majority, ruleC02Decode, ruleIndexMapUse("C05-INDEXMAP"), ruleC04ReadGate, ruleC14Block, ruleErrFlow("C05-ERRFLOW")},
+		Rules:       []ruleFn{ruleDetach("C05-DETACH"), ruleC05Monitor("C05-MONITOR"), ruleC04Lists("C05-STOPIO"), ruleC05Ping("C05-PING"), ruleC15Client, ruleC02Majority, ruleC02Decode, ruleIndexMapUse("C05-INDEXMAP"), ruleC04ReadGate, ruleC14Block, ruleErrFlow("C05-ERRFLOW"), ruleC04Promote("C05-STICKY")},
 		Explanation: "Decides that every failure detector ends in ERR marking plus removal under the controller lock (I/O error paths, monitor goroutine, ping failure, rpc time-out / transport error poisoning the client and failing all pending requests), that a removed backend leaves the reader/writer lists at once, that backend I/O is issued only through those lists, and that a failing strict minority still yields the majority encoding accepted by the controller.",
 		NotDecided:  "wall-clock promptness; which detector fires first; that the survivors hold the data.",
 	}
 	registry["C06"] = &propSpec{
-		Rules:       []ruleFn{ruleC06Hole, ruleC06Snapstep, ruleC01Head, ruleC11Sync, ruleC06RevertCtl, ruleC12Rollback, ruleC12},
+		Rules:       []ruleFn{ruleC06Hole, ruleC06Snapstep, ruleC01Head, ruleC11Sync, ruleC06RevertCtl, ruleC12Rollback, ruleC12, ruleC08CloseWho},
 		Explanation: "Decides that every hole-punch request targets the file whose index the dominating strict guard compared with the latest user-created snapshot index (guard/use consistency via files[G] or paired phis), that UserCreatedSnap changes in lock-step with the file list and SnapIndx is set only under the user-created flag, that the hole queue is drained before files are unlinked or closed, that only fullWriteAt writes chain files (and only the head), and that revert creates the new head on the requested snapshot, commits volume.meta before removing the old head and reloads with preload.",
 		NotDecided:  "that the snapshot image equals the volume at the instant it was taken; byte identity after preload/reopen; what FIEMAP reports.",
 	}
